@@ -23,11 +23,12 @@ ASSUMPTIONS = [
     "functions are the documented ones that exist in the code (exp, pow, log10, sin, cos); arguments are dimensionless",
     "~ is applied to boolean references, literals and parenthesised expressions only",
     "values are never inside [0.3,3]x the 1e-6 equality tolerance",
+    "cases with |x|>100 for sin/cos or |x|>50 for exp are discarded (ill-conditioned, last-bit differences are amplified)",
 ]
 NT_FLOOR = 0.3
 _uid = itertools.count()
 
-UNITS = {"len": ["m", "cm", "km", "mm"], "time": ["s", "min", "ms"], "vel": ["m/s", "km/h", "cm/s"], "area": ["m2", "cm2"],
+UNITS = {"angle": ["rad", "deg", "mrad"], "len": ["m", "cm", "km", "mm"], "time": ["s", "min", "ms"], "vel": ["m/s", "km/h", "cm/s"], "area": ["m2", "cm2"],
          "none": [None]}
 CUSTOM = ("clen", "2", "cm")     # $unit clen = 2 cm  -> [clen]
 NODES = {"a": ("float", 10.0, "m"), "b": ("float", 300.0, "cm"), "t": ("float", 2.0, "min"), "v": ("float", 36.0, "km/h"),
@@ -69,7 +70,8 @@ def expr(dim, custom, depth, positive=False):
             "area": ["atom", "len*len", "sum", "pow(len,2)"],
             "time": ["atom", "sum", "len/vel"],
             "vel": ["atom", "len/time"],
-            "none": ["atom", "atom", "sum", "len/len", "none*none", "fn", "powi", "par", "time/time"],
+            "none": ["atom", "atom", "sum", "len/len", "none*none", "fn", "fn_angle", "powi", "par", "time/time"],
+            "angle": ["atom", "atom", "sum", "angle*none"],
         }[dim]
         r = draw(st.sampled_from(rules))
         sub = lambda d, pos=positive: draw(gen(dim=d, depth=depth - 1, positive=pos))
@@ -87,6 +89,11 @@ def expr(dim, custom, depth, positive=False):
             f = draw(st.sampled_from(["exp", "log10", "sin", "cos"]))
             arg = draw(gen(dim="none", depth=depth - 1, positive=True)) if f == "log10" else sub("none", positive)
             return ["fn", f, arg]
+        if r == "fn_angle":
+            # an angle given in deg / mrad must be taken in radians by sin and cos
+            return ["fn", draw(st.sampled_from(["sin", "cos"])), sub("angle", False)]
+        if r == "angle*none":
+            return ["chain", sub("angle"), [["*", draw(atom("none", custom, True))]]]
         if r == "powi":
             return ["pow", draw(gen(dim="none", depth=depth - 1, positive=True)), draw(st.sampled_from([2, 3]))]
         if r == "pow(len,2)":
@@ -242,6 +249,9 @@ def evaluate(e, custom):
         return evaluate(e[1], custom)
     if k == "fn":
         x = evaluate(e[2], custom)
+        # ill-conditioned arguments amplify last-bit differences beyond any fixed tolerance: not this property's business
+        if (e[1] in ("sin", "cos") and abs(x) > 100) or (e[1] == "exp" and abs(x) > 50) or (e[1] == "log10" and not x > 1e-6):
+            raise ValueError("ill-conditioned function argument")
         return {"exp": math.exp, "log10": math.log10, "sin": math.sin, "cos": math.cos}[e[1]](x)
     if k == "pow":
         return evaluate(e[1], custom) ** e[2]
